@@ -60,6 +60,11 @@ import (
 // The oracle removes exactly the expected wrong charge from the live snapshot (the groups on its path are then compared in pod set and self
 // figures only), demands everything else under the generic fingerprints, and reports the armed fingerprint when only that class remains.
 //
+// Extension 7 (pod phases): a BOUND pod (spec.nodeName set, not terminal) shows status.phase Running, Pending (bound a moment ago, containers
+// creating) or "" - drawn when the pod is first seen bound (add, bind update, armed streams, scripted start), moving only forward on later
+// updates.  The phase is not a model token (the model's only phase input is `term`), the oracle is unchanged: a restarted scheduler must
+// charge a bound pod whatever non-terminal phase it shows.  Terminal phases stay as before (informer-filter assumption in props/C19.json).
+//
 // Strict generator = the decidable hypotheses of the theorem (Model/C19QuotaSpec.lean okStep); VERIF_C19Q_FREE=1 lifts them
 // (manual runs only; shows the races listed in props/C19.json).
 
@@ -68,6 +73,7 @@ type c19qPod struct {
 	req            int64
 	node, term     bool
 	rv             int
+	ph             int // extension 7: status.phase of the pod WHILE BOUND and not terminal: 0 Running, 1 Pending (containers creating), 2 "" (not a model token)
 	obj            *corev1.Pod
 }
 
@@ -203,12 +209,38 @@ func (w *c19qWorld) mkPod(p *c19qPod) {
 	}
 	o.Status.Phase = corev1.PodPending
 	if p.node {
-		o.Status.Phase = corev1.PodRunning
+		// extension 7: a bound pod is Running, still Pending (containers creating; what a restarted scheduler sees for a pod bound a moment
+		// ago) or carries no phase at all; none of the three is terminal, so the charge must not depend on it (the model has no phase token)
+		o.Status.Phase = []corev1.PodPhase{corev1.PodRunning, corev1.PodPending, ""}[p.ph]
 	}
 	if p.term {
 		o.Status.Phase = []corev1.PodPhase{corev1.PodSucceeded, corev1.PodFailed}[w.r.Intn(2)]
 	}
 	p.obj = o
+}
+
+// pickPhase (extension 7): the non-terminal phase a pod shows while bound; it only moves forward ("" -> Pending -> Running).
+func (w *c19qWorld) pickPhase(p *c19qPod) {
+	if !p.node || p.term {
+		return
+	}
+	switch p.ph {
+	case 0: // Running stays Running
+	case 1:
+		p.ph = []int{1, 1, 0}[w.r.Intn(3)]
+	default:
+		p.ph = []int{2, 1, 0}[w.r.Intn(3)]
+	}
+	w.h.Tag("p:bound-phase-" + []string{"running", "pending", "empty"}[p.ph])
+}
+
+// firstPhase (extension 7): the phase of a pod at the moment it is first seen bound.
+func (w *c19qWorld) firstPhase(p *c19qPod) {
+	p.ph = 0
+	if p.node && !p.term {
+		p.ph = []int{0, 1, 1, 2}[w.r.Intn(4)]
+		w.h.Tag("p:bound-phase-" + []string{"running", "pending", "empty"}[p.ph])
+	}
 }
 
 func (p *c19qPod) toks() string {
@@ -666,6 +698,7 @@ func (w *c19qWorld) opPodAdd() bool {
 	if r.Chance(1, 10) {
 		p.term = true
 	}
+	w.firstPhase(p)
 	w.mkPod(p)
 	w.pods[p.id] = p
 	w.loc[p.id] = w.res(p)
@@ -681,6 +714,9 @@ func (w *c19qWorld) opPodAdd() bool {
 	}
 	if p.node && !p.term {
 		w.h.Tag("p:add-bound(fail-over-branch)")
+		if p.ph == 1 {
+			w.h.Tag("p:add-bound-still-pending(fail-over-branch)")
+		}
 	}
 	w.podAdd(0, p)
 	return true
@@ -744,6 +780,13 @@ func (w *c19qWorld) opPodUpdate(forceBind int) bool {
 		w.h.Tag("p:update-resync-same-rv")
 	case 5: // status-only update
 		w.h.Tag("p:update-status-only")
+	}
+	if kind != 4 {
+		if kind == 0 {
+			w.firstPhase(&n)
+		} else {
+			w.pickPhase(&n)
+		}
 	}
 	w.mkPod(&n)
 	if kind == 4 {
@@ -1199,6 +1242,7 @@ func (w *c19qWorld) cut() {
 func (w *c19qWorld) addPodRaw(label, ns int, bound bool) *c19qPod {
 	p := &c19qPod{id: w.nextP, label: label, ns: ns, req: int64(w.r.Range(1, 16)) * 250, rv: 1, node: bound}
 	w.nextP++
+	w.firstPhase(p)
 	w.mkPod(p)
 	w.pods[p.id] = p
 	w.loc[p.id] = w.res(p)
@@ -1212,6 +1256,11 @@ func (w *c19qWorld) updatePodRaw(id int, f func(n *c19qPod)) {
 	n := *old
 	n.rv++
 	f(&n)
+	if n.node && !old.node {
+		w.firstPhase(&n)
+	} else {
+		w.pickPhase(&n)
+	}
 	w.mkPod(&n)
 	w.h.Op("quota pupd 0 %s %s", old.toks(), n.toks())
 	w.pods[id] = &n
@@ -1364,6 +1413,7 @@ func TestVerifC19Quota(t *testing.T) {
 			lbl := 3 + r.Intn(3)
 			p := &c19qPod{id: w.nextP, label: lbl, ns: 90, req: int64(r.Range(1, 16)) * 250, rv: 1, node: r.Bool()}
 			w.nextP++
+			w.firstPhase(p)
 			w.mkPod(p)
 			w.pods[p.id] = p
 			w.loc[p.id] = 1
@@ -1385,7 +1435,7 @@ func TestVerifC19Quota(t *testing.T) {
 		h.End()
 	}
 	h.Close("elasticquota restart histories: 12-40 calls of OnQuotaAdd/Update/Delete (re-parenting, max, namespace annotation incl. empty/null/malformed, own-namespace quotas, " +
-		"DeletedFinalStateUnknown), OnPodAdd/Update/Delete (label present / absent / special names / naming a quota that does not exist (yet), bind, resize, label change, " +
+		"DeletedFinalStateUnknown), OnPodAdd/Update/Delete (label present / absent / special names / naming a quota that does not exist (yet), bind, resize, label change, bound pods in phase Running / Pending / \"\", " +
 		"failed pending pod, same-RV resync, tombstones), Reserve/Unreserve, migrateDefaultQuotaGroupsPod on a live plugin; at two cuts a fresh plugin is fed the final objects in " +
 		"shape R (store + OnQuotaAdd any order + ReplaceQuotas, pods with duplicates), H (handlers, every pod after its quota, duplicates) or L (pods before their quotas, once) " +
 		"followed by the migration; every third case starts with a pod naming a quota created later; every fifth case (stream M) runs with MultiQuotaTree on and the quotas in a " +
@@ -1426,7 +1476,7 @@ func TestVerifC19QuotaExhaustive(t *testing.T) {
 	gen(nil, 0)
 	idx := 0
 	for variant := 0; variant < 4; variant++ {
-		for _, perm := range perms {
+		for pi, perm := range perms {
 			for dup := 0; dup < 3; dup++ {
 				r := h.Begin(idx)
 				idx++
@@ -1446,11 +1496,17 @@ func TestVerifC19QuotaExhaustive(t *testing.T) {
 					{id: 2, label: 0, ns: 90, req: 2000, rv: 1, node: variant&2 != 0},
 					{id: 3, label: 9, ns: 5, req: 500, rv: 1, node: true},
 				}
+				// extension 7: the phase the bound pods show (Running / Pending / ""), rotating so that every (variant, dup) and every order meets all three
+				phase := (pi + dup + variant) % 3
 				for _, p := range ps {
+					if p.node {
+						p.ph = phase
+					}
 					w.mkPod(p)
 					w.pods[p.id] = p
 				}
 				h.Tag(fmt.Sprintf("exh:variant-%d-dup-%d", variant, dup))
+				h.Tag("exh:bound-phase-" + []string{"running", "pending", "empty"}[phase])
 				// canonical order on cache 0
 				w.live = newPl()
 				w.quotaPut(0, qa, 1, nil)
@@ -1495,6 +1551,20 @@ func TestVerifC19QuotaExhaustive(t *testing.T) {
 							break
 						}
 					}
+					// extension 7, nothing taken is free: every bound pod is charged (assigned) by exactly one quota, whatever non-terminal phase it shows
+					for _, p := range ps {
+						asg := 0
+						for _, o := range b {
+							if o.pods[p.id] {
+								asg++
+							}
+						}
+						if p.node && asg != 1 {
+							h.Fail("C19:quota-rebuilt-bound-pod-not-charged:exh", "order %v dup %d variant %d: bound pod %d (phase %q) is assigned in %d quotas after the deliveries",
+								perm, dup, variant, p.id, string(p.obj.Status.Phase), asg)
+							break
+						}
+					}
 				}
 				h.Nontrivial()
 				h.End()
@@ -1502,5 +1572,5 @@ func TestVerifC19QuotaExhaustive(t *testing.T) {
 		}
 	}
 	h.Close("exhaustive small scope: 2 quotas (label / namespace annotation), 3 pods (labelled, unlabelled-by-namespace, labelled with a missing quota), 4 bound/pending variants x " +
-		"all 120 orders of the 5 add events x {no duplicate, pod 1 again, pod 2 again} + migration, each compared with the canonical quotas-first order; every case is distinct and non-trivial")
+		"all 120 orders of the 5 add events x {no duplicate, pod 1 again, pod 2 again} + migration, each compared with the canonical quotas-first order; bound pods show phase Running / Pending / \"\" in rotation and must each be assigned in exactly one quota; every case is distinct and non-trivial")
 }
